@@ -209,7 +209,7 @@ func (hs *hstate) runPlan(w *bufio.Writer, phase int, p cfsim.Plan, model bool) 
 		fmt.Fprintf(w, "X %d harness-error run %s: %v\n", hs.n, id, err)
 		return
 	}
-	report(w, hs.n, id, fmt.Sprintf("guided%d", phase), 0, res, model)
+	reportAttributed(w, hs.s, hs.twin, hs.n, id, fmt.Sprintf("guided%d", phase), p, res, model)
 	for _, e := range res.Events {
 		lab := hs.label[e.Op]
 		// what was struck
@@ -708,4 +708,39 @@ func runMaster(count, first, workers int, outPath string, quota, mult int) int {
 		return 2
 	}
 	return 0
+}
+
+// reportAttributed: a divergence noticed late (at a later faulted operation, or at the end of the
+// run) is traced to its cause before it is reported — the plan is reduced to one faulted operation
+// at a time and re-run with the state compared after every operation; every reduced plan that
+// still diverges is reported as a run of its own (its key names the operation that first differs
+// and the fault before it), and the run that noticed it is reported under the same key.
+func reportAttributed(w *bufio.Writer, s *cfsim.Script, twin *cfsim.Twin, n int, id, planName string, p cfsim.Plan, res *cfsim.FaultResult, model bool) {
+	late := res.Viol != nil && len(p) > 1 && !strings.HasPrefix(res.Viol.Key, "process-exits") && !strings.HasPrefix(res.Viol.Key, "address-index-differs-after-fault")
+	type red struct {
+		id  string
+		res *cfsim.FaultResult
+	}
+	var reds []red
+	if late {
+		var ops []int
+		for i := range p {
+			ops = append(ops, i)
+		}
+		sort.Ints(ops)
+		for _, i := range ops {
+			single := cfsim.Plan{i: p[i]}
+			if r2, err := cfsim.RunFaultPlanTracked(s, single, twin); err == nil && r2.Viol != nil {
+				reds = append(reds, red{fmt.Sprintf("%d:%s", n, single), r2})
+			}
+		}
+		if len(reds) > 0 {
+			res.Viol.What = "[noticed as " + res.Viol.Key + "; cause: plan " + reds[0].id + "] " + res.Viol.What
+			res.Viol.Key = reds[0].res.Viol.Key
+		}
+	}
+	report(w, n, id, planName, 0, res, model)
+	for _, r := range reds {
+		report(w, n, r.id, "attributed", 0, r.res, false)
+	}
 }
